@@ -6,7 +6,7 @@ import vlib
 META = {
     "property_id": "C11",
     "level": "proof",
-    "coq_targets": ["BitSetJudge.vo"],
+    "coq_targets": ["BitSetJudge.vo", "Base/SetLoopTie.vo"],
     "technique": "translator tie (bit_set.go regenerated to Gallina every run, proved equal to the model) + Coq theorems over an executable N-model of bit_set.go (all widths, all argument lists, all op sequences) + in-kernel correspondence of model, abstract spec and real BitSet on generated op sequences and the 8-bit sweep",
     "design_ref": "DESIGN.md §4 C11",
     "level_text": "Proof: BitSetProofs.v shows, for every N (hence every flag width incl. bit 63), every argument list and every operation sequence, that the model of set/bit_set.go computes exactly union / difference / intersection / subset tests and that Add/Remove return true iff the stored bits changed, and that a multi-argument call equals one-at-a-time calls (Props/C11.v, closed under the global context). The model is tied to the current source by running the real generic BitSet over uint8/16/32/64/uint on generated sequences and the exhaustive 8-bit (set, flag) sweep and judging every observation inside Coq against both the model and the abstract spec.",
@@ -17,7 +17,7 @@ TRUSTED = [
     "Coq 8.16.1 kernel and VM (vm_compute); no native_compute; no axioms (Print Assumptions: closed under the global context)",
     "hand-written model coq/theories/BitSetModel.v of set/bit_set.go, tied by correspondence only",
     "Go harness harness/cmd/c11 (generator, observation of bits/results), Go 1.23 toolchain",
-    "translator harness/cmd/xlate_bitset (go/parser -> Gallina for the subset bit_set.go uses); validated by the correspondence run",
+    "translator harness/cmd/xlate_bitset + harness/internal/setxl (go/parser -> Gallina for a subset of Go: helper functions, index loops, if/else with return/continue/break, op-assignments); its output is proved equal to the model for all arguments by coq/ties/Tie_C11.v (shape-independent tactics of Base/SetLoopTie.v); the translator itself is validated by the correspondence run",
 ]
 
 
